@@ -32,6 +32,11 @@
 (*                        on the same stream                               *)
 (*   "TimeNanosAsSeconds" the event time is built from the nanosecond      *)
 (*                        count as if it were seconds                      *)
+(*   "DeleteUnguarded"    a delete removes the record from the key index   *)
+(*                        and only then sends its event, holding the guard *)
+(*                        of the removed object: a request that re-creates *)
+(*                        the key is not ordered behind that send (its     *)
+(*                        event can meet or overtake the delete event)     *)
 (***************************************************************************)
 EXTENDS Integers, Sequences, FiniteSets, TLC
 
@@ -87,7 +92,8 @@ DoCall(st, w, op, k, v, t) ==
 \* the record's guard: nobody else is between its commit and the end of its sends on this record
 GuardFree(st, w) ==
   \A w2 \in Writers \ {w} :
-    (st.pend[w2].ph = "committed" /\ st.pend[w2].k = st.pend[w].k) =>
+    (st.pend[w2].ph = "committed" /\ st.pend[w2].k = st.pend[w].k
+       /\ ~("DeleteUnguarded" \in Dev /\ st.pend[w2].kind = "deleted")) =>
        (st.pend[w2].owed = {} /\ st.pend[w2].sending = {})
 
 DoCommit(st, w) ==
